@@ -14,6 +14,12 @@ around the real inner function, calls it on the vector as a list and as an ndarr
   * f(f(x)) == f(x),
   * the input object against a private copy (decorators that return a copy must not mutate it).
 
+impose_as is specified for general masks (chains, fan-in, fan-out, trees, forests; Transforms.tla, section
+"tracking masks"): TLC itself ENUMERATES the masks (MC_TransformsAs*.tla: every list of up to 3 (thorough: 4) pairs on
+4 (5) positions, both orientations, every order of the list, negative spellings, offsets None/0/1/-0.5) and emits the
+expected vector of every (mask, offset, input); masks for which the documented relation y[j] = y[i] + offset cannot
+hold for all pairs are outside the premise (counted, not judged).
+
 A second TLC configuration (script mode) emits every sequence of 2 (quick) / 3 (thorough) steps over a
 small catalogue; the harness replays each step and the same sequence as one stack of real decorators.
 
@@ -35,15 +41,25 @@ RULE = ("every vector of the bounded class (entries from a fixed set of halves, 
         "changes at least one entry (or allows a value other than the input); distinct = (decorator, vector, input kind)")
 
 # ------------------------------------------------------------------------------------------ TLC side
+# (cfg, number of parallel TLC runs the catalogue is split over); the root module is the cfg's name up to the last "_"
 CONFIGS = {
-    "quick": [("MC_Transforms_quick.cfg", 4), ("MC_Transforms_tens.cfg", 1)],
-    "thorough": [("MC_Transforms_thorough.cfg", 15), ("MC_Transforms_tens.cfg", 1)],
+    "quick": [("MC_Transforms_quick.cfg", 4), ("MC_Transforms_tens.cfg", 1), ("MC_TransformsAs_quick.cfg", 7)],
+    "thorough": [("MC_Transforms_thorough.cfg", 15), ("MC_Transforms_tens.cfg", 1), ("MC_TransformsAs_thorough.cfg", 13),
+                 ("MC_TransformsAs5_thorough.cfg", 31)],
 }
 SCRIPT_CFG = {"quick": "MC_Transforms_script.cfg", "thorough": "MC_Transforms_script_thorough.cfg"}
+MODULES = ("MC_TransformsAs5", "MC_TransformsAs", "MC_Transforms")
+
+
+def module_of(cfg):
+    for m in MODULES:
+        if cfg.startswith(m + "_"):
+            return m
+    raise ValueError(cfg)
 
 
 def tlc_part(cfg, part, nparts):
-    r = run_tlc("cons/MC_Transforms", cfg=cfg, workers=1, env={"PART": part, "NPARTS": nparts},
+    r = run_tlc("cons/" + module_of(cfg), cfg=cfg, workers=1, env={"PART": part, "NPARTS": nparts},
                 timeout=3000, heap="3g")
     culprit = None
     if r.violated:
@@ -96,7 +112,7 @@ def decorator(mc, mt, d, S, kind):
     if k == "at":
         return mc.impose_at(list(ix), val(p[0], S))
     if k == "as":
-        return mc.impose_as([tuple(m) for m in iv], val(p[0], S))
+        return mc.impose_as([tuple(m) for m in iv], None if p[0] == NONE else val(p[0], S))
     if k == "mean":
         return mc.with_mean(val(p[0], S))
     if k == "var":
@@ -110,12 +126,24 @@ def decorator(mc, mt, d, S, kind):
     if k == "partial":
         return mt.partial({m[0]: val(m[1], S) for m in iv})
     if k == "sync":
-        return mt.synchronized({m[0]: (m[1] if m[2] == 0 else (m[1], m[2])) for m in iv})
+        return mt.synchronized({m[0]: sync_value(m, p, S) for m in iv})
     if k == "clipped":
         return mt.clipped(val(p[0], S), val(p[1], S), exit=bool(p[2]))
     if k == "suppressed":
         return mt.suppressed(val(p[0], S), exit=bool(p[1]))
     raise ValueError(k)
+
+
+def sync_value(m, p, S):
+    """value of one synchronized mask entry <<i, j, c>>: j | (j, c) | (j, lambda t: c*t) | (j, lambda t: t + c/S)"""
+    form = p[0] if p else 0
+    if m[2] == 0:
+        return m[1]
+    if form == 1:
+        return (m[1], lambda t, c=m[2]: c * t)
+    if form == 2:
+        return (m[1], lambda t, c=m[2] / S: t + c)
+    return (m[1], m[2])
 
 
 def build(mc, mt, d, S, kind):
@@ -148,13 +176,16 @@ def describe(d, S):
     if k == "at":
         return "impose_at(%s, %s)(%s)" % (list(ix), f(p[0]), inner)
     if k == "as":
-        return "impose_as(%s, %s)(%s)" % ([tuple(m) for m in iv], f(p[0]), inner)
+        return "impose_as(%s, %s)(%s)" % ([tuple(m) for m in iv], None if p[0] == NONE else f(p[0]), inner)
     if k in STAT:
         return "%s(%s)(%s)" % ({"mean": "with_mean", "var": "with_variance", "spread": "with_spread", "norm": "normalized"}[k], f(p[0]), inner)
     if k in ("masked", "partial"):
         return "%s(%s)(%s)" % (k, {m[0]: f(m[1]) for m in iv}, inner)
     if k == "sync":
-        return "synchronized(%s)(%s)" % ({m[0]: (m[1] if m[2] == 0 else (m[1], m[2])) for m in iv}, inner)
+        form = p[0] if p else 0
+        sv = lambda m: m[1] if m[2] == 0 else ((m[1], m[2]) if form == 0 else
+                                               "(%d, lambda t: %s)" % (m[1], ("%d*t" % m[2]) if form == 1 else ("t+%s" % (m[2] / S))))
+        return "synchronized(%s)(%s)" % ({m[0]: sv(m) for m in iv}, inner)
     if k == "clipped":
         return "clipped(%s, %s, exit=%s)(%s)" % (f(p[0]), f(p[1]), bool(p[2]), inner)
     if k == "suppressed":
@@ -167,7 +198,7 @@ def addressing(d, n):
     k, ix, iv = d["k"], d["ix"], d["iv"]
     raw = []
     if k in ("as",):
-        raw = [m[1] for m in iv]
+        raw = [i for m in iv for i in m]          # roots of a fan-in change as well
     elif k in ("sync", "partial"):
         raw = [m[0] for m in iv]
     elif ix != [NONE]:
@@ -179,10 +210,21 @@ def addressing(d, n):
     return pos, raw
 
 
-def qualifiers(d, n, failing):
+LISTING = {1: "late-root", 2: "late-link"}
+
+
+def qualifiers(d, n, failing, ascls=None):
     """stable qualifiers that make a violation key name the class of the failing case"""
     q = []
     k, ix, p, iv = d["k"], d["ix"], d["p"], d["iv"]
+    if k == "as" and ascls:
+        # classes of the mask as computed by the SPECIFICATION (AsClass): chained / several roots / how the list is ordered
+        if ascls[0]:
+            q.append("chain")
+        if ascls[1]:
+            q.append("fan-in")
+        if p[0] not in (NONE, 0):
+            q.append("offset")
     if k == "bounds":
         if len(iv) > 1:
             q.append("multi-interval")
@@ -195,7 +237,7 @@ def qualifiers(d, n, failing):
     if k == "integers" and p[0] == 1:
         q.append("ints=True")
     if k == "sync" and any(m[2] != 0 for m in iv):
-        q.append("scaled-form")
+        q.append("scaled-form" if not p or p[0] == 0 else "callable-form")
     if d["g"] == 1:
         q.append("inner=x+0.5")
     pos, raw = addressing(d, n)
@@ -210,6 +252,28 @@ def qualifiers(d, n, failing):
         if failing and all(pos.get(e) and all(i < 0 for i in pos[e]) for e in failing):
             q.append("neg-index")
     return q
+
+
+class CallTimeout(Exception):
+    pass
+
+
+def _on_alarm(signum, frame):
+    raise CallTimeout("no result within %s s" % CALL_LIMIT)
+
+
+CALL_LIMIT = 20.0
+
+
+def guarded(fn, arg):
+    """call fn(arg) under a wall-clock limit: impose_as loops for ever when its offset loop never runs dry"""
+    import signal
+    signal.signal(signal.SIGALRM, _on_alarm)
+    signal.setitimer(signal.ITIMER_REAL, CALL_LIMIT)
+    try:
+        return fn(arg)
+    finally:
+        signal.setitimer(signal.ITIMER_REAL, 0)
 
 
 def make_input(xs, kind, np):
@@ -295,6 +359,7 @@ def replay_cases(header, lines, mc, mt, np, corrupt=False):
     """replay one TLC run; returns a summary dict (picklable)"""
     S = header["S"]
     cat, foot, oor = header["cat"], header["foot"], header["oor"]
+    ascls = header.get("ascls")
     fns = {}
     res = {"evaluations": 0, "nontrivial": set(), "undefined": 0, "viol": {}, "nviol": {}, "samples": [],
            "classes": {}, "lines": len(lines), "per_kind": {}}
@@ -335,7 +400,7 @@ def replay_cases(header, lines, mc, mt, np, corrupt=False):
                 probs = []
                 xin = make_input(xs, kind, np)
                 try:
-                    out = as_floats(fn(xin))
+                    out = as_floats(guarded(fn, xin) if k == "as" else fn(xin))
                 except Exception as ex:
                     per_kind[kind] = [("raises-" + type(ex).__name__, [])]
                     got[kind] = repr(ex)
@@ -353,7 +418,7 @@ def replay_cases(header, lines, mc, mt, np, corrupt=False):
                     probs.append(("input-mutated", []))
                 if plain and not any(pr == "wrong-length" for pr, _ in probs):
                     try:
-                        out2 = as_floats(fn(make_input(out, kind, np)))
+                        out2 = as_floats(guarded(fn, make_input(out, kind, np)) if k == "as" else fn(make_input(out, kind, np)))
                         inexact = isinstance(exp, dict) and (("v" in exp and not exp["ex"]) or "pc" in exp)
                         if len(out2) != len(out) or any((abs(a - b) > 1e-12 * max(1.0, abs(a))) if inexact else (a != b)
                                                         for a, b in zip(out, out2)):
@@ -373,14 +438,24 @@ def replay_cases(header, lines, mc, mt, np, corrupt=False):
                 cls("conforming-unchanged")
             if oor[di][n]:
                 cls("out-of-range-index")
+            acl = ascls[di][n] if (k == "as" and ascls) else None
+            if acl:
+                cls("impose_as: " + ("chained" if acl[0] else "flat") + (" fan-in" if acl[1] else "") +
+                    (" offset" if d["p"][0] not in (NONE, 0) else "") + ("" if acl[2] == 0 else " listed " + LISTING[acl[2]]))
+                if any(not (-n <= i < n) for m in d["iv"] for i in m) and any(all(-n <= i < n for i in m) for m in d["iv"]):
+                    cls("impose_as: partially out-of-range mask")
             allp = sorted(set(pr for kd in per_kind for pr, _ in per_kind[kd]))
             for pr in allp:
                 where = [kd for kd in ("list", "array") if any(q == pr for q, _ in per_kind.get(kd, []))]
                 failing = sorted(set(e for kd in where for q, es in per_kind[kd] if q == pr for e in es))
-                quals = qualifiers(d, n, failing)
+                quals = qualifiers(d, n, failing, acl)
                 if len(where) == 1:
                     quals.append(where[0] + "-only")
-                key = ":".join([k, pr] + quals)
+                # impose_as masks whose list is not "source first" form their own family of classes (as:pair-order:...)
+                if acl and acl[2]:
+                    key = ":".join([k, "pair-order", LISTING[acl[2]], pr])
+                else:
+                    key = ":".join([k, pr] + quals)
                 add_violation(key, {"decorator": describe(d, S), "record": d, "input": xs, "expected(spec units 1/%d)" % S: exp,
                                     "got": got, "footprint(1-based)": sorted(fp), "failing_entries(0-based)": failing,
                                     "input_kinds_failing": where},
@@ -423,7 +498,7 @@ def replay_scripts(header, lines, mc, mt, np, stride=1, offset=0):
             for j in range(1, len(s)):
                 d = cat[s[j][0] - 1]
                 try:
-                    out = as_floats(build(mc, mt, d, S, kind)(make_input(cur, kind, np)))
+                    out = as_floats(guarded(build(mc, mt, d, S, kind), make_input(cur, kind, np)))
                 except Exception as ex:
                     add_violation("script:%s:raises-%s" % (d["k"], type(ex).__name__), {"script": names, "start": start, "step": j, "error": repr(ex)},
                                   "script %s from %s: step %d raised %r" % (names, start, j, ex))
@@ -451,7 +526,7 @@ def replay_scripts(header, lines, mc, mt, np, stride=1, offset=0):
                     d = cat[st[0] - 1]
                     f = decorator(mc, mt, d, S, kind)(f)
                 try:
-                    out = as_floats(f(make_input(start, kind, np)))
+                    out = as_floats(guarded(f, make_input(start, kind, np)))
                     want = expect_vec(s[-1])
                     if len(out) != len(want) or any(abs(Fraction(o) - w) > Fraction(1, 10 ** 12) for o, w in zip(out, want)):
                         add_violation("script:stacked:wrong-value", {"script": names, "start": start, "expected": [float(w) for w in want], "got": out},
@@ -689,7 +764,8 @@ def selftest(a):
 
     orig = {"bounded": mc.bounded, "discrete": mc.discrete, "integers": mc.integers, "impose_at": mc.impose_at,
             "sorting": mc.sorting, "suppress": mt.suppress, "impose_as": mc.impose_as, "clipped": mt.clipped,
-            "insert_missing": mt.insert_missing, "monotonic": mc.monotonic, "partial": mt.partial}
+            "insert_missing": mt.insert_missing, "monotonic": mc.monotonic, "partial": mt.partial,
+            "synchronized": mt.synchronized}
 
     def src_mutant(module, name, old, new, count=1):
         """re-exec the source of module.name with one textual change (in memory only)"""
@@ -701,15 +777,15 @@ def selftest(a):
 
     def m_clip_far():
         # clip into the interval that is FARTHEST from the point
-        src_mutant(mc, "bounded", "seq[at] = _clip(seq_at, *(b[abs(seq_at.reshape(-1,1)-b).argmin(axis=1)] for b in bounds))",
-                   "seq[at] = _clip(seq_at, *(b[abs(seq_at.reshape(-1,1)-b).argmax(axis=1)] for b in bounds))")
+        src_mutant(mc, "bounded", "near = minimum(*(abs(seq_at.reshape(-1,1)-b) for b in bounds)).argmin(axis=1)",
+                   "near = minimum(*(abs(seq_at.reshape(-1,1)-b) for b in bounds)).argmax(axis=1)")
 
     def m_discrete_tie():
         src_mutant(mc, "discrete", "if hi - xi < xi - lo:", "if hi - xi <= xi - lo:")
 
     def m_oor_wraps():
         # an out-of-range index wraps around instead of being ignored
-        src_mutant(mc, "integers", "try: mask[sorted(index[0], key=abs)] = True", "try: mask[[i % max(1, xp.size) for i in index[0]]] = True")
+        src_mutant(mc, "integers", "if -mask.size <= i < mask.size: mask[i] = True", "if mask.size: mask[i % mask.size] = True")
 
     def m_inplace():
         # impose_as works on the caller's object
@@ -738,6 +814,31 @@ def selftest(a):
     def m_masked_order():
         src_mutant(mt, "insert_missing", "for (k,v) in sorted(_mask.items()):", "for (k,v) in sorted(_mask.items(), reverse=True):")
 
+    def m_as_wrong_end():
+        # the seeded slip C16b: the next round keeps the pairs whose TARGET was offset -> offsets pile up at the wrong end of a chain
+        src_mutant(mc, "impose_as", "pairs = [m for m in pairs if m[0] in indx]", "pairs = [m for m in pairs if m[1] in indx]")
+
+    def m_as_offset_first():
+        # the offset is applied to the first member of the tuple
+        src_mutant(mc, "impose_as", "indx,trac = zip(*pairs)", "trac,indx = zip(*pairs)")
+
+    def m_as_no_accumulate():
+        # the offset is added once, it does not accumulate along a chain
+        src_mutant(mc, "impose_as", "pairs = [m for m in pairs if m[0] in indx]", "pairs = []")
+
+    def m_as_backwards():
+        # a component is resolved in the wrong direction: the source takes the value of its trackers
+        src_mutant(mc, "impose_as", "try: x[k] = x[i]", "try: x[i] = x[k]")
+
+    def m_as_offset_none_is_one():
+        # offset=None behaves like offset=1
+        src_mutant(mc, "impose_as", "if offset is None: offset = 0", "if offset is None: offset = 1")
+
+    def m_sync_callable_ignored():
+        # synchronized applies a callable scale as if it were the constant 1
+        src_mutant(mt, "synchronized", "x[i] = j1(x[j0]) if isinstance(j1, _Callable) else j1*x[j0]",
+                   "x[i] = x[j0] if isinstance(j1, _Callable) else j1*x[j0]")
+
     def m_corrupt():
         OPTS["corrupt"] = True
 
@@ -752,6 +853,12 @@ def selftest(a):
                ("clipped forgets the upper bound", m_clipped_open),
                ("monotonic ignores index=", m_mono_all),
                ("masked inserts in reverse key order", m_masked_order),
+               ("impose_as: chained offsets accumulate at the wrong end (m[1] slip)", m_as_wrong_end),
+               ("impose_as: offset applied to the first member of the tuple", m_as_offset_first),
+               ("impose_as: offset does not accumulate along a chain", m_as_no_accumulate),
+               ("impose_as: component resolved in the wrong direction", m_as_backwards),
+               ("impose_as: offset=None adds 1", m_as_offset_none_is_one),
+               ("synchronized ignores a callable scale", m_sync_callable_ignored),
                ("one expected value from TLC corrupted", m_corrupt)]
     missed = 0
     # baseline: which violation classes exist without any mutation (must not count as 'caught')
@@ -762,6 +869,9 @@ def selftest(a):
         run_all(base, a, jobs)
     base_keys = dict(base.viol_keys)
     print("SELFTEST baseline (no mutation): %d violations in %d classes" % (base.violations, len(base_keys)))
+    # a mutant of impose_as is looked for in the mask configurations (+ scripts), every other one in the rest
+    as_jobs = [j for j in jobs if "TransformsAs" in j[1] or j[0] == "scripts"]
+    other_jobs = [j for j in jobs if "TransformsAs" not in j[1]]
     for name, mut in mutants:
         mut()
         ck = Check("C16", "exploration", tier, a.seed, rule=RULE)
@@ -769,13 +879,13 @@ def selftest(a):
         buf = io.StringIO()
         try:
             with contextlib.redirect_stdout(buf):
-                run_all(ck, a, jobs)
+                run_all(ck, a, as_jobs if name.startswith("impose_as:") else other_jobs)
             new = {k: v - base_keys.get(k, 0) for k, v in ck.viol_keys.items() if v > base_keys.get(k, 0)}
         except Exception as ex:
             new = {"harness-raised:" + repr(ex)[:80]: 1}
         finally:
             for k, v in orig.items():
-                setattr(mt if k in ("suppress", "clipped", "insert_missing", "partial") else mc, k, v)
+                setattr(mt if k in ("suppress", "clipped", "insert_missing", "partial", "synchronized") else mc, k, v)
             OPTS["corrupt"] = False
         caught = bool(new)
         ex_keys = sorted(new)[:3]
